@@ -1,8 +1,12 @@
 package main
 
 import (
+	"strings"
+
 	"google.golang.org/protobuf/compiler/protogen"
 	"google.golang.org/protobuf/reflect/protoreflect"
+	"google.golang.org/protobuf/types/descriptorpb"
+	"google.golang.org/protobuf/types/pluginpb"
 )
 
 // C17 - generated code routes every RPC at its canonical path.
@@ -35,8 +39,25 @@ func (s fakeService) ParentFile() protoreflect.FileDescriptor { return s.file }
 
 type fakeMethod struct {
 	protoreflect.MethodDescriptor
-	name protoreflect.Name
+	name             protoreflect.Name
+	streamC, streamS bool
+	deprecated       bool
+	svc              fakeService
 }
+
+func (m fakeMethod) IsStreamingClient() bool { return m.streamC }
+func (m fakeMethod) IsStreamingServer() bool { return m.streamS }
+func (m fakeMethod) FullName() protoreflect.FullName {
+	return m.svc.FullName() + "." + protoreflect.FullName(m.name)
+}
+func (m fakeMethod) Options() protoreflect.ProtoMessage {
+	if m.deprecated {
+		t := true
+		return &descriptorpb.MethodOptions{Deprecated: &t}
+	}
+	return (*descriptorpb.MethodOptions)(nil)
+}
+func (s fakeService) Options() protoreflect.ProtoMessage { return (*descriptorpb.ServiceOptions)(nil) }
 
 func (m fakeMethod) Name() protoreflect.Name { return m.name }
 
@@ -130,11 +151,14 @@ var c17Printed []string
 func stubGeneratedFileP(g *protogen.GeneratedFile, v ...interface{}) {
 	line := ""
 	for _, x := range v {
-		s, ok := x.(string)
-		if !ok {
-			panic("stubGeneratedFileP: only strings are modelled")
+		switch x := x.(type) {
+		case string:
+			line += x
+		case protogen.GoIdent:
+			line += x.GoName // (natively: qualified with the package name)
+		default:
+			panic("stubGeneratedFileP: only strings and identifiers are modelled")
 		}
-		line += s
 	}
 	c17Printed = append(c17Printed, line)
 }
@@ -184,5 +208,133 @@ func HarnessC17Comments() {
 			}
 			check(len(line) >= 2 && line[0] == '/' && line[1] == '/', "every line printed for a leading comment is a Go line comment")
 		}
+	}
+}
+
+//verif:stub (*google.golang.org/protobuf/compiler/protogen.GeneratedFile).QualifiedGoIdent@genP
+func stubQualifiedGoIdent(g *protogen.GeneratedFile, ident protogen.GoIdent) string {
+	return ident.GoName
+}
+
+// wrapComments (word-wrapped doc comments built from fixed English text) is
+// not the subject of the constructor harness: stubbed to print nothing.
+//
+//verif:stub github.com/bufbuild/connect-go/cmd/protoc-gen-connect-go.wrapComments@genWrap
+func stubWrapComments(g *protogen.GeneratedFile, elems ...any) {}
+
+// c17NewFile: the zero GeneratedFile is enough on the symbolic side (P is
+// stubbed); natively a real one is needed (identifier qualification).
+func c17NewFile() *protogen.GeneratedFile {
+	if verifSymbolic() {
+		return &protogen.GeneratedFile{}
+	}
+	gen, err := protogen.Options{}.New(&pluginpb.CodeGeneratorRequest{})
+	if err != nil {
+		panic(err)
+	}
+	return gen.NewGeneratedFile("out.txt", "example.com/out")
+}
+
+func c17Text(g *protogen.GeneratedFile) []string {
+	if verifSymbolic() {
+		return c17Printed
+	}
+	b, err := g.Content()
+	if err != nil {
+		panic(err)
+	}
+	return strings.Split(string(b), "\n")
+}
+
+func c17Kind(c, s bool) (handler, call string) {
+	switch {
+	case c && !s:
+		return "NewClientStreamHandler(", ".CallClientStream(ctx)"
+	case !c && s:
+		return "NewServerStreamHandler(", ".CallServerStream(ctx, req)"
+	case c && s:
+		return "NewBidiStreamHandler(", ".CallBidiStream(ctx)"
+	}
+	return "NewUnaryHandler(", ".CallUnary(ctx, req)"
+}
+
+// HarnessC17Constructors: generateServerConstructor and generateClientMethod
+// executed for a service (package absent or present, symbolic names) with two
+// methods of symbolic streaming kinds: each method is mounted exactly once,
+// at its canonical path, with the constructor of its kind, and labelled with
+// the same path; the mount prefix returned is "/<fully-qualified service>/";
+// the client method calls the stream constructor of the same kind.
+//
+//verif:harness property=C17 stubs=genP,genWrap
+func HarnessC17Constructors() {
+	pkg := ""
+	if nondetBool("hasPackage") {
+		pkg = identBytes("pkg", 2)
+	}
+	svcName := identBytes("service", 2)
+	fsvc := fakeService{name: protoreflect.Name(svcName), file: fakeFile{pkg: protoreflect.FullName(pkg)}}
+	service := &protogen.Service{Desc: fsvc, GoName: "S" + svcName}
+	fq := svcName
+	if pkg != "" {
+		fq = pkg + "." + svcName
+	}
+	msg := &protogen.Message{GoIdent: protogen.GoIdent{GoName: "Msg", GoImportPath: "example.com/out"}}
+	type mk struct {
+		name   string
+		c, s   bool
+		method *protogen.Method
+	}
+	var ms []mk
+	for i := 0; i < 2; i++ {
+		name := []string{"a", "b"}[i] + identBytes("method", 1)
+		c, s := nondetBool("streamingClient"), nondetBool("streamingServer")
+		m := &protogen.Method{
+			Desc:   fakeMethod{name: protoreflect.Name(name), streamC: c, streamS: s, deprecated: nondetBool("deprecated"), svc: fsvc},
+			GoName: "M" + name, Parent: service, Input: msg, Output: msg,
+		}
+		service.Methods = append(service.Methods, m)
+		ms = append(ms, mk{name, c, s, m})
+	}
+	names := newNames(service)
+	g := c17NewFile()
+	c17Printed = nil
+	generateServerConstructor(g, service, names)
+	lines := c17Text(g)
+	for _, m := range ms {
+		path := "/" + fq + "/" + m.name
+		hk, _ := c17Kind(m.c, m.s)
+		mounts := 0
+		for i, l := range lines {
+			if strings.HasPrefix(l, `mux.Handle("`+path+`", `) {
+				mounts++
+				check(strings.HasSuffix(l, hk), "a method is mounted with the handler constructor of its streaming kind")
+				check(i+2 < len(lines) && strings.TrimSpace(lines[i+1]) == `"`+path+`",`, "the Spec is labelled with the same canonical path the handler is mounted at")
+				check(i+2 < len(lines) && strings.TrimSpace(lines[i+2]) == "svc."+m.method.GoName+",", "the mounted handler calls the method's own implementation")
+			}
+		}
+		check(mounts == 1, "every method is mounted exactly once at /<fully-qualified service>/<method>")
+	}
+	returns := 0
+	for _, l := range lines {
+		if strings.HasPrefix(strings.TrimSpace(l), "return ") {
+			returns++
+			check(strings.TrimSpace(l) == `return "/`+fq+`/", mux`, "the mount prefix returned is /<fully-qualified service>/")
+		}
+	}
+	check(returns == 1, "the constructor returns once")
+	for _, m := range ms {
+		g2 := c17NewFile()
+		c17Printed = nil
+		generateClientMethod(g2, service, m.method, names)
+		_, ck := c17Kind(m.c, m.s)
+		calls := 0
+		for _, l := range c17Text(g2) {
+			t := strings.TrimSpace(l)
+			if strings.HasPrefix(t, "return c.") {
+				calls++
+				check(t == "return c."+unexport(m.method.GoName)+ck, "the client method calls the constructor matching the method's streaming kind on the method's own client")
+			}
+		}
+		check(calls == 1, "the client method makes exactly one call")
 	}
 }
